@@ -76,6 +76,22 @@ class NP(shim.SymNumpy):
         self.trace.append(("array_equal", True))
         return True
 
+    def isclose(self, a, b, rtol=1e-05, atol=1e-08, equal_nan=False):
+        """numpy's formula; every element is decided (forking through the path manager) so that the result is a real
+        bool / bool array that can flow into any(), all(), argmax(), where() and comparisons like numpy's own result"""
+        if not (shim._is_obj(a) or shim._is_obj(b)):
+            return realnp.isclose(a, b, rtol=rtol, atol=atol, equal_nan=equal_nan)
+        r = super().isclose(a, b, rtol=rtol, atol=atol)
+        if isinstance(r, realnp.ndarray):
+            out = realnp.empty(r.shape, dtype=bool)
+            for idx in realnp.ndindex(r.shape):
+                out[idx] = _truth(r[idx])
+            return out
+        return _truth(r)
+
+    def any(self, a, *args, **kw):
+        return realnp.any(a, *args, **kw)
+
     def allclose(self, a, b, rtol=1e-05, atol=1e-08, equal_nan=False):
         """all(isclose(a, b)) evaluated element by element with early exit (same value; avoids forking on the sign of
         differences that are never looked at)"""
@@ -293,6 +309,28 @@ def point_anywhere(name, xs, us, mode, ax, eps, n):
 # ---------------------------------------------------------------------------
 # cases
 # ---------------------------------------------------------------------------
+def _tiny_grids(n):
+    """valid grids whose first points are only a few 1e-9 apart (x_min ~ 1e-9)"""
+    head = [Fraction(1, 10**9), Fraction(3, 10**9), Fraction(8, 10**9)]
+    out = []
+    for h in (3, 2):
+        h = min(h, n)
+        rest = n - h
+        xs = head[:h] + [Fraction(float(10 ** (-6 + 6 * (i + 1) / rest))).limit_denominator(10**12) for i in range(rest)]
+        out.append({"x%d" % i: v for i, v in enumerate(xs)})
+    return out
+
+
+def _valid_rejected(log, e, n, deg, mode, mode_N=False):
+    """the constructor raised ValueError on a sorted grid of distinct points with an admissible degree (on this path)"""
+    v = prove_formula(z3.BoolVal(False), "a sorted grid of %d distinct points with degree %d is accepted (constructor raised ValueError: %s)" % (n, deg, str(e)[:80]))
+    cands = _tiny_grids(n) + ([v.model] if v.model else [])
+    v.model = None
+    decide(log, v, key="InterpolatorDispatcher.__init__:valid-input-rejected", replay=(MOD, "replay_accept", {"mode": mode, "n": n, "deg": deg, "mode_N": mode_N}),
+           sampler=_sampler(n, mode), candidates=cands)
+    log.twin("sorted grid")
+
+
 def case_basis(log, mode, n, deg, mode_N=False, raw_input=False):
     ip, _np = load()
     log.encode(ip.XGrid.__init__, ip.InterpolatorDispatcher.__init__, ip.BasisFunction.__init__, ip.Area.__init__, ip.Area._compute_coefs,
@@ -304,9 +342,7 @@ def case_basis(log, mode, n, deg, mode_N=False, raw_input=False):
         try:
             xs, us, xg, d, ax = build(ip, n, deg, mode, mode_N, raw_input)
         except ValueError as e:
-            v = prove_formula(z3.BoolVal(False), "a sorted grid of %d distinct points with degree %d is accepted (constructor raised ValueError: %s)" % (n, deg, e))
-            decide(log, v, key="InterpolatorDispatcher.__init__:valid-input-rejected", replay=(MOD, "replay_accept", dict(kw)), sampler=_sampler(n, mode))
-            log.twin("sorted grid")
+            _valid_rejected(log, e, n, deg, mode, mode_N)
             return
         # -- interior of every interval
         for k in range(n - 1):
@@ -344,7 +380,11 @@ def case_reinterp(log, mode, n, deg, free, generic=0):
                ip.evaluate_x, ip.log_evaluate_x, ip.Area._compute_coefs, ip.XGrid.__init__)
     eps = ip._atol_eps
     def run():
-        xs, us, xg, d, ax = build(ip, n, deg, mode, False)
+        try:
+            xs, us, xg, d, ax = build(ip, n, deg, mode, False)
+        except ValueError as e:
+            _valid_rejected(log, e, n, deg, mode)
+            return
         if generic:
             tnames, ts, tus = [], [], []
             for i in range(generic):
@@ -387,7 +427,7 @@ def case_reinterp(log, mode, n, deg, free, generic=0):
                 what = "row %d of get_interpolation reproduces u^%d%s" % (i, m, " (early-exit branch: targets 'close' to the nodes)" if early else "")
                 v = prove_zero(tot, what)
                 cands = ()
-                if early and not v.holds:  # try the grid reaching x = 1e-9 first, then the solver's own model
+                if not v.holds:  # try the grid reaching x = 1e-9 (targets within 5e-9 of a node) first, then the solver's own model
                     cands = _close_candidates(n, tnames) + ([v.model] if v.model else [])
                     v.model = None
                 decide(log, v, key=key, replay=(MOD, "replay_reinterp", {"mode": mode, "n": n, "deg": deg, "tnames": tnames, "m": m}),
@@ -636,19 +676,26 @@ def _validate_reinterp(log, ip, n, deg, mode):
 _EPS = 2.3e-15
 
 
-def _nodes(point, n, mode):
+def _f(v):
+    """model values arrive as Fractions, floats or strings such as '1/1000000000'"""
+    if isinstance(v, str):
+        return float(Fraction(v.replace("?", "")))
+    return float(v)
+
+
+def _nodes(point, n, mode, min_gap=1e-9):
     import numpy as np
 
     try:
-        xs = [float(point["x%d" % i]) for i in range(n)]
-    except KeyError:
+        xs = [_f(point["x%d" % i]) for i in range(n)]
+    except (KeyError, ValueError, ZeroDivisionError):
         return None
     if mode and xs[0] <= 0:
         return None
     if xs[0] < 0:
         return None
     us = list(np.log(xs)) if mode else xs
-    if any(b - a <= 1e-9 for a, b in zip(us, us[1:])) or any(b <= a for a, b in zip(xs, xs[1:])):
+    if any(b - a <= min_gap for a, b in zip(us, us[1:])) or any(b <= a for a, b in zip(xs, xs[1:])):
         return None
     return xs, us
 
@@ -691,7 +738,7 @@ def replay_basis(point, mode, n, deg, k, m, mode_N=False):
     if g is None or ("xe%d" % k) not in point:
         return None
     xs, us = g
-    x = float(point["xe%d" % k])
+    x = _f(point["xe%d" % k])
     if x <= 0 and mode:
         return None
     u = float(np.log(x)) if mode else x
@@ -729,7 +776,7 @@ def replay_reinterp(point, mode, n, deg, tnames, m):
     if g is None or any(t not in point for t in tnames):
         return None
     xs, us = g
-    ts = [float(point[t]) for t in tnames]
+    ts = [_f(point[t]) for t in tnames]
     if any(t < xs[0] or t > xs[-1] for t in ts):
         return None
     tus = [float(np.log(t)) for t in ts] if mode else ts
@@ -749,7 +796,7 @@ def replay_reinterp(point, mode, n, deg, tnames, m):
 def replay_accept(point, mode, n, deg, mode_N=False):
     import eko.interpolation as ip
 
-    g = _nodes(point, n, mode)
+    g = _nodes(point, n, mode, min_gap=1e-13)
     if g is None:
         return None
     try:
@@ -783,8 +830,8 @@ def replay_reject_duplicates(point, mode, n):
     import eko.interpolation as ip
 
     try:
-        xs = [float(point["x%d" % i]) for i in range(n)]
-    except KeyError:
+        xs = [_f(point["x%d" % i]) for i in range(n)]
+    except (KeyError, ValueError):
         return None
     if any(x <= 0 for x in xs):
         return None
